@@ -117,6 +117,32 @@ static void do_serialize(double d)
 		sb_puts(&out, t ? t : "(null)");
 		sb_putc(&out, '|');
 	}
+	/* custom double formats (per thread, global, per node), also ones whose output does not start
+	 * with a digit: padded, signed, with a literal prefix */
+	static const char *const fmts[] = {"%.3f", "%8.3f", "% .2f", "%+.1e", "x%0.3fy", "%-9.2f"};
+	for (unsigned f = 0; f < sizeof fmts / sizeof fmts[0]; f++)
+	{
+		int how = (int)(f % 3);
+		struct json_object *pn = NULL;
+		if (how == 0)
+			json_c_set_serialization_double_format(fmts[f], JSON_C_OPTION_THREAD);
+		else if (how == 1)
+			json_c_set_serialization_double_format(fmts[f], JSON_C_OPTION_GLOBAL);
+		else
+		{
+			pn = json_object_new_double(d);
+			json_object_set_serializer(pn, json_object_double_to_json_string, (void *)fmts[f], NULL);
+		}
+		MC_COUNT("calls", 1);
+		errno = mc_errno_pre;
+		const char *t = json_object_to_json_string_ext(pn ? pn : a, JSON_C_TO_STRING_PLAIN);
+		sb_puts(&out, t ? t : "(null)");
+		sb_putc(&out, '|');
+		json_c_set_serialization_double_format(NULL, JSON_C_OPTION_THREAD);
+		json_c_set_serialization_double_format(NULL, JSON_C_OPTION_GLOBAL);
+		if (pn)
+			json_object_put(pn);
+	}
 	compare_probe(&p, "json_object_to_json_string_ext");
 	json_object_put(a);
 }
